@@ -27,6 +27,7 @@ THEOREMS = [P + t for t in (
     "extract_faithful_int", "extract_faithful_frac", "exact_when_representable", "within_one_ulp", "nearest_unique", "digit_table_correct", "ldexp_exact_normal", "int_print_exact_to_2p53",
     "ldexp_faithful_subnormal", "ldexp_overflow_faithful", "ldexp_exact_int",
     "seventeen_digits_suffice", "print17_roundtrip_partial",
+    "convert_shortcircuits", "huge_shortcircuit_sound", "tiny_shortcircuit_sound", "log2_table_coarse_check",
 )]
 
 ENV = dict(os.environ, ASAN_OPTIONS="detect_leaks=0:abort_on_error=0", UBSAN_OPTIONS="print_stacktrace=1")
@@ -349,6 +350,9 @@ def run(ctx):
     return ctx.finish("proof", cov, assumptions=[
         "libm: ldexp is exact round-to-nearest-even scaling, log2 values taken from the libm in use at run time (Gen/Strtod.lean log2Table), "
         "snprintf %.17g is correctly rounded (all three compared bit-for-bit with the model on every run)",
+        "Log2Within1Ulp (hypothesis of huge/tiny_shortcircuit_sound): libm log2((double) b) is within one ulp of the true logarithm; "
+        "the regenerated table is kernel-checked to 2^-14 (log2_table_coarse_check)",
+        "libc_fixed0_exact: snprintf %.0f of an integer-valued double prints its exact decimal expansion (compared on every run)",
         "uint64/uint32 arithmetic in the BigNat routines does not wrap (bounds proved in Strtod/Lemmas for digits < 2^31, factor <= 36^4)",
     ])
 
